@@ -169,7 +169,11 @@ class Adapter(object):
                         c = g.column[n]
                         k = args[1] % c.num_nodes
                         c.node = c.node[k:] + c.node[:k]
-                g.decompose_columns([g.column[n] for n in args[0]] if args[0] else [])
+                if len(args) > 2 and args[2]:
+                    # asking for the old-to-new column mapping is an option of the same edit
+                    g.decompose_columns([g.column[n] for n in args[0]] if args[0] else [], mapping=True)
+                else:
+                    g.decompose_columns([g.column[n] for n in args[0]] if args[0] else [])
             elif op == "reduce":
                 g.reduce([g.column[n] for n in args[0]])
             elif op == "refine_layers":
@@ -192,6 +196,10 @@ class Adapter(object):
                     if args[1]:
                         src.translate(np.array([0.0, 0.0, args[1] * H]))
                 g.copy_layers_from(src)
+            elif op == "add_node":
+                # a node nothing uses yet (a step of building a column by hand): an orphan until something uses or removes it
+                m = core.repo_modules("mulgrids")
+                g.add_node(m.node(g.new_node_name()[0], np.array([args[0] * H, args[1] * H])))
             elif op == "add_delete_node":
                 # a node added away from the mesh and deleted again (primitives of the statement's list)
                 m = core.repo_modules("mulgrids")
@@ -529,6 +537,8 @@ def op_alphabet(geo, rng, rich):
     ops.append({"op": "decompose_columns", "args": [[]]})
     if big:
         ops.append({"op": "decompose_columns", "args": [[big[0]]]})
+        ops.append({"op": "decompose_columns", "args": [[big[-1]], 0, True]})
+    ops.append({"op": "add_node", "args": [rng.choice([-40, 400]), rng.choice([-40, 400])]})
     # the first, the last two (the newest: columns an earlier refinement made) and a random quadrilateral
     for c in list(dict.fromkeys(quads[:1] + quads[-2:] + ([rng.choice(quads)] if quads and rich else []))):
         ops.append({"op": "split_column", "args": [c.name, c.node[rng.randrange(4)].name]})
